@@ -242,18 +242,18 @@ func mainImplementation(ctx context.Context, stdout, stderr io.Writer, args []st
 		return fmt.Errorf("couldn't open Git repository: %w", repoErr)
 	}
 
-	if jsonOutput {
-		if !flags.Changed("json-version") {
-			v, err := repo.ConfigIntDefault("sizer.jsonVersion", jsonVersion)
-			if err != nil {
-				return err
-			}
-			jsonVersion = v
-			if !(jsonVersion == 1 || jsonVersion == 2) {
-				return fmt.Errorf("JSON version (read from gitconfig) must be 1 or 2")
-			}
-		} else if !(jsonVersion == 1 || jsonVersion == 2) {
+	if flags.Changed("json-version") {
+		if !(jsonVersion == 1 || jsonVersion == 2) {
 			return fmt.Errorf("JSON version must be 1 or 2")
+		}
+	} else if jsonOutput {
+		v, err := repo.ConfigIntDefault("sizer.jsonVersion", jsonVersion)
+		if err != nil {
+			return err
+		}
+		jsonVersion = v
+		if !(jsonVersion == 1 || jsonVersion == 2) {
+			return fmt.Errorf("JSON version (read from gitconfig) must be 1 or 2")
 		}
 	}
 
